@@ -1067,6 +1067,13 @@ theorem main_unit_only_units (ops : Ops DT Val) (u : UnitOps DT) (c : ClassDesc 
     | none => exact ⟨rfl, rfl, rfl⟩
     | some mu => exact ⟨rfl, rfl, by simp [List.map_map, Function.comp_def, substParam]⟩
 
+/-- the check the driver runs on every case implies the hypothesis `hv` of `main_unit_applied` -/
+theorem valueTypedB_sound (ops : Ops DT Val) (c : ClassDesc DT Val) (cfg : Cfg Val) (h : valueTypedB ops c cfg = true) :
+    ∀ pdv ∈ c.params, pdv.name = "value" → (startOf ops c cfg pdv).isSome = true := by
+  intro pdv hp hn
+  have := List.all_eq_true.1 h pdv hp
+  simpa [hn] using this
+
 /-! ## which configuration file is applied -/
 
 open Frappy.Lemmas.ConfigUnit in
